@@ -324,7 +324,8 @@ PROP = Prop(
         "PyNum (see C02)",
     ],
     assumptions=["numpy scalars and registered constant classes are not modelled"],
-    level_text="",
-    level_note="",
+    level_text='Lean theorems for every overloaded operator (unbounded over operands and operator programs): the tree built by Python-style dispatch evaluates, wherever the plain computation on numbers is defined with an exact value, to a value == the plain one; over an arbitrary non-commutative ring the built tree equals the plain computation (no reordering). Three folds (x//1, x%1, 0**x) are proved false with concrete witnesses and kept as known findings. The model is tied to the code by the exhaustive (operator x left kind x right kind) table and random operator programs.',
+    level_note='Trusted: Lean kernel; PyNum; the model of CPython binary-operator dispatch (validated exhaustively). Side conditions of the theorems are explicit Bool predicates (exact result for true division / constant-base power; integer-valued left operand for the //1 and %1 folds). numpy scalars and registered constant classes are not modelled.',
+    technique='Lean 4 per-operator soundness lemmas + program induction + ring-evaluation theorem; exhaustive differential correspondence of the dunder-method model',
     design_ref="DESIGN.md §4 C03",
 )
